@@ -265,8 +265,9 @@ class DependencyGraph:
                 tuple_occurences[(from_id, to_id)] = 0
             tuple_occurences[(from_id, to_id)] += 1
 
-        for from_id, to_id in self.edge_tuples:
-            if tuple_occurences[(from_id, to_id)] == 1:
+        # each distinct tuple is drawn once, with one strand per occurrence
+        for (from_id, to_id), num_strands in tuple_occurences.items():
+            if num_strands == 1:
                 mb.create_connector(
                     shape_dict[from_id],
                     shape_dict[to_id],
@@ -277,8 +278,6 @@ class DependencyGraph:
                 )
             else:
                 # "elbow" shapes are needed to space out the multiple connectors
-                num_strands = tuple_occurences[(from_id, to_id)]
-
                 elbow_x = (
                     self.node_coordinates[from_id][0] + self.node_coordinates[to_id][0]
                 ) / 2
